@@ -69,10 +69,12 @@ fn renumber(lua: &[u8]) -> Vec<u8> {
                 i += 1;
             }
             let w = &lua[s..i];
-            if w.len() > 1 && (w[0] == b'V' || w[0] == b'L') && w[1..].iter().all(|b| b.is_ascii_digit()) {
+            // generated names: one to three capital letters followed by digits only (V12, L3 - whatever the prefix is)
+            let np = w.iter().take_while(|b| b.is_ascii_uppercase()).count();
+            if np >= 1 && np <= 3 && w.len() > np && w[np..].iter().all(|b| b.is_ascii_digit()) {
                 let k = map.len();
                 let id = *map.entry(w.to_vec()).or_insert(k);
-                out.push(w[0]);
+                out.extend_from_slice(&w[..np]);
                 out.extend_from_slice(format!("#{}", id).as_bytes());
             } else {
                 out.extend_from_slice(w);
